@@ -334,7 +334,8 @@ def drop_cut_unwindset(scratch, obs, depth):
                         ids[mangled + '.0'] = '%s.0:%d' % (mangled, depth + 1)
     have_rec = sum(1 for k in ids if not k.endswith('.0'))
     if have_rec < 1:
-        return None
+        # the harness binaries were found but contain no Value drop glue at all: nothing to limit
+        return '' if mine else None
     return ','.join(sorted(ids.values()))
 
 
